@@ -29,7 +29,14 @@ Monitors (biomon/oracle/c09_monitor.py, c09_ref.py):
    quick_estimate; after every simulate the values keyed by id, after every
    calculate_likelihood the log likelihood of the data set, and at every engine
    calculation outside a bootstrap loop "the map inside the engine is the
-   database's current map" (snapshot of the last setDataMap per engine object).
+   database's current map" (snapshot of the last setDataMap per engine object);
+ * re-declarations (mode 'redeclare'): ONE Database declared panel several times
+   on nested id columns (persons in households: a -> b, b -> a, a -> a,
+   a -> b -> a), optionally with evaluations / BIOGEME objects / remove /
+   add_column / scale_column in between; contracts at every declaration (map
+   against the CURRENT panel column), all value / draw / sample-size oracles
+   on the finally declared individuals, agreement with a fresh Database
+   declared directly on the final column.
 """
 from __future__ import annotations
 
@@ -50,7 +57,9 @@ RULE = (
     'the initial ones; plus non-contiguous tables, formulas with a row variable outside the trajectory, and directed '
     'tables with 16-digit integer ids that collide in float64; plus histories: one BIOGEME object (binary-logit panel '
     'model, bounded parameters, optionally a random coefficient under MonteCarlo) taken through 3-7 operations among '
-    'simulate / calculate_likelihood / estimate / estimate(run_bootstrap) / quick_estimate, judged after every step. A case is '
+    'simulate / calculate_likelihood / estimate / estimate(run_bootstrap) / quick_estimate, judged after every step; plus re-declaration histories '
+    '(one Database, panel() called 2-3 times on nested id columns with optional evaluations / remove / add_column / '
+    'scale_column in between, judged on the final column and against a fresh Database). A case is '
     'non-trivial when the table has >= 2 rows and the reference evaluator accepts the trajectory value as regular and '
     'well-conditioned (float64 vs 80-bit agreement 1e-12); distinct = hash of (table as presented, ids, formula, '
     'parameters, draws)'
@@ -76,6 +85,7 @@ N_NONCONTIG = {'quick': 20, 'thorough': 150}
 N_DIRECTED_OUTSIDE = 4
 N_HISTORY = {'quick': 40, 'thorough': 400}
 N_DIRECTED_HISTORY = 4
+N_REDECLARE = {'quick': 60, 'thorough': 600}
 N_DIRECTED_HUGEID = 3
 
 RTOL, ATOL = 1e-9, 1e-11
@@ -105,6 +115,8 @@ def cases(seed, tier):
         out.append({'seed': seed, 'i': i, 'mode': 'history', 'tier': tier})
     for i in range(N_DIRECTED_HISTORY):
         out.append({'seed': 'directed', 'i': i, 'mode': 'history', 'tier': 'quick'})
+    for i in range(N_REDECLARE[tier]):
+        out.append({'seed': seed, 'i': i, 'mode': 'redeclare', 'tier': tier})
     for i in range(N_DIRECTED_HUGEID):
         out.append({'seed': 'directed', 'i': i, 'mode': 'hugeid', 'tier': 'quick'})
     return out
@@ -214,8 +226,8 @@ class _Ctx:
             self.viol(mech, f'table {which}: {msg}', monitor=wit)
 
 
-def _database(cx, which, genlog):
-    """real Database on presentation `which`, declared panel. returns (database, table dict, status)"""
+def _database(cx, which, genlog, table=None, declare=True):
+    """real Database on presentation `which` (or on an explicit table), declared panel. returns (database, table dict, status)"""
     import pandas as pd
     import biogeme.database as bdb
     from biogeme.exceptions import BiogemeError
@@ -223,12 +235,16 @@ def _database(cx, which, genlog):
     from ..oracle import c09_monitor as mon
 
     spec = cx.spec
-    tab = c09_panel.table(spec, which)
-    df = pd.DataFrame({c: list(v) for c, v in tab.items()}, index=list(spec['index']))
+    tab = table if table is not None else c09_panel.table(spec, which)
+    nrows = len(next(iter(tab.values())))
+    df = pd.DataFrame({c: list(v) for c, v in tab.items()},
+                      index=list(spec['index']) if len(spec['index']) == nrows else list(range(nrows)))
     mon.STATE['idcol'] = spec['idcol']
     database = bdb.Database('c09' + which, df)
     if spec['draws']:
         database.set_random_number_generators(mon.spying_generators(spec, genlog))
+    if not declare:
+        return database, tab, 'ok'
     noncontig = spec['mode'] == 'noncontig' and which == 'a'
     try:
         database.panel(spec['idcol'])
@@ -254,8 +270,8 @@ def _database(cx, which, genlog):
     return database, tab, 'ok'
 
 
-def _evaluate_table(cx, which):
-    """all observations on one presentation. returns dict or None"""
+def _evaluate_table(cx, which, prepared=None):
+    """all observations on one presentation (or on an already prepared (database, table, genlog)). returns dict or None"""
     from biogeme.biogeme import BIOGEME
     from biogeme.expressions import Variable
     from ..oracle import c09_ref
@@ -263,13 +279,17 @@ def _evaluate_table(cx, which):
     from ..gen import exprs as exprs_mod
 
     rec, spec = cx.rec, cx.spec
-    genlog = []
-    database, tab, status = _database(cx, which, genlog)
-    if database is None:
-        return None
+    if prepared is not None:
+        database, tab, genlog = prepared
+        del genlog[:]
+    else:
+        genlog = []
+        database, tab, status = _database(cx, which, genlog)
+        if database is None:
+            return None
     idcol = spec['idcol']
     # rows removed between panel() and the model: the map must follow
-    if spec['remove']:
+    if spec['remove'] and prepared is None:
         col, val = spec['remove']['col'], spec['remove']['value']
         how = spec['remove'].get('how', 'api')
         try:
@@ -613,20 +633,161 @@ def _run_history(cx, case):
                 'bootstrap_samples': spec['bootstrap_samples'], 'operations_completed': done})
 
 
+def _contiguous(values):
+    seen = set()
+    prev = object()
+    for v in values:
+        if v != prev:
+            if v in seen:
+                return False
+            seen.add(v)
+            prev = v
+    return True
+
+
+def _run_redeclare(cx, case):
+    """ONE Database object declared panel several times (nested id columns), optionally with evaluations, BIOGEME
+    objects, remove / add_column / scale_column in between. Judged: the contracts at every declaration (map against the
+    CURRENT panel column) and, for the finally declared individuals, everything _evaluate_table judges, plus agreement
+    with a fresh Database declared directly on the final column. A re-declaration the library refuses with its own
+    error on a table that is not contiguous for the new column (in its current row order) is counted, not judged."""
+    import random as _random
+    from biogeme.biogeme import BIOGEME
+    from biogeme.exceptions import BiogemeError
+    from biogeme.expressions import Variable
+    from ..gen import c09_panel
+    from ..oracle import c09_ref
+    from ..oracle import c09_monitor as mon
+
+    rec, spec = cx.rec, cx.spec
+    genlog = []
+    spec['idcol'] = spec['cols'][spec['sequence'][0]]
+    database, tab, _ = _database(cx, 'a', genlog, declare=False)
+    eb = spec['eval_betas']
+    seq = spec['sequence']
+    rec.c('redeclare_sequence_' + '>'.join(seq))
+    for step, role in enumerate(seq):
+        col = spec['cols'][role]
+        spec['idcol'] = col
+        mon.STATE['idcol'] = col
+        contiguous = _contiguous(list(database.data[col]))
+        try:
+            database.panel(col)
+        except BiogemeError as e:
+            if contiguous:
+                cx.viol('valid-panel-table-refused' + ('-on-redeclaration' if step else ''),
+                        f'declaration {step} ({role}): panel({col!r}) raised BiogemeError although every individual forms one '
+                        f'contiguous block in the current table: {e}', table=tab, sequence=seq)
+            else:
+                rec.c('redeclaration_refused_by_library_table_not_contiguous_for_new_column')
+            mon.drain()
+            return
+        except BaseException as e:  # noqa
+            cx.viol(f'panel-raises-{type(e).__name__}', f'declaration {step} ({role}): panel() raised {type(e).__name__}: {e}',
+                    table=tab, sequence=seq)
+            return
+        rec.ev()
+        rec.c('declarations_made')
+        if step:
+            rec.c('redeclarations_accepted')
+        cx.drain(f'a, declaration {step} on {col}')
+        if step == len(seq) - 1:
+            break
+        for act in spec['between'][step]:
+            rec.c('redeclare_between_' + act['do'])
+            try:
+                if act['do'] == 'evaluate':
+                    free = {n: eb[n] for n, (v, st) in spec['betas'].items() if st == 0}
+                    _build(spec, spec['formulas']['P']).get_value_c(database=database, betas=free,
+                                                                     number_of_draws=max(1, spec['ndraws']), prepare_ids=True)
+                elif act['do'] == 'biogeme':
+                    bg = BIOGEME(database, {'P': _build(spec, spec['formulas']['P'])}, parameters=_params(spec))
+                    bg.simulate({n: eb[n] for n in bg.free_beta_names})
+                elif act['do'] == 'remove':
+                    database.remove(Variable(act['col']) == act['value'])
+                    keep = [t for t in range(len(tab[col])) if tab[act['col']][t] != act['value']]
+                    tab = {c: [v[t] for t in keep] for c, v in tab.items()}
+                elif act['do'] == 'add_column':
+                    database.add_column(Variable(act['col']) * 2 + 1, f'c09_new_{step}_{rec.cov.get("redeclare_between_add_column", 0)}')
+                elif act['do'] == 'scale_column':
+                    database.scale_column(act['col'], act['scale'])
+                    tab = dict(tab)
+                    tab[act['col']] = [v * act['scale'] for v in tab[act['col']]]
+            except BaseException as e:  # noqa
+                # intermediate evaluations are not judged; an engine error would poison the rest of the case
+                rec.c(f'redeclare_between_{act["do"]}_raised_{type(e).__name__}')
+                mon.drain()
+                return
+            cx.drain(f'a, after {act["do"]} under declaration {step} on {col}')
+    # ---- the finally declared individuals ------------------------------------------------
+    final = spec['idcol']
+    ra = _evaluate_table(cx, 'a', prepared=(database, tab, genlog))
+    # a fresh Database declared directly on the final column (blocks / rows of the current table reshuffled)
+    rr = _random.Random(spec['shuffle_seed'])
+    groups = c09_ref.groups_by_id(tab, final)
+    gl = [list(g) for g in groups.values()]
+    rr.shuffle(gl)
+    perm = []
+    for g in gl:
+        rr.shuffle(g)
+        perm += g
+    tab_b = {c: [v[t] for t in perm] for c, v in tab.items()}
+    genlog_b = []
+    db_b, tab_b, status = _database(cx, 'b', genlog_b, table=tab_b)
+    rb = _evaluate_table(cx, 'b', prepared=(db_b, tab_b, genlog_b)) if db_b is not None else None
+    if ra and rb:
+        rec.c('redeclared_vs_fresh_compared')
+        for nm in ra['sim']:
+            if nm not in rb['sim']:
+                continue
+            rec.ev()
+            ids = sorted(ra['sim'][nm], key=float)
+            va = np.array([ra['sim'][nm][i] for i in ids])
+            vb = np.array([rb['sim'][nm].get(i, np.nan) for i in ids])
+            if len(ra['sim'][nm]) != len(rb['sim'][nm]) or not close(va, vb, 1e-10, 1e-13):
+                cx.viol('redeclared-database-differs-from-fresh-database-declared-on-the-final-column',
+                        f'sequence {seq}, formula {nm}: {len(ra["sim"][nm])} values on the re-declared database, '
+                        f'{len(rb["sim"][nm])} on the fresh one; first ids {ids[:6]}: {va[:6].tolist()} vs {vb[:6].tolist()}',
+                        table_a=ra['tab'], sequence=seq)
+        if ra['ll'] is not None and rb['ll'] is not None:
+            rec.ev()
+            if not close(ra['ll'], rb['ll'], 1e-10, 1e-12):
+                cx.viol('redeclared-database-loglikelihood-differs-from-fresh-database-declared-on-the-final-column',
+                        f'sequence {seq}: {ra["ll"]!r} vs {rb["ll"]!r}', table_a=ra['tab'], sequence=seq)
+    r0 = ra or rb
+    if r0:
+        rec.c('redeclare_cases_judged')
+        if spec['mc']:
+            rec.c('redeclare_cases_judged_montecarlo')
+        if seq[0] != seq[-1] or len(seq) > 2:
+            rec.c('redeclare_cases_judged_with_change_of_column')
+        if r0['n_rows'] >= 2:
+            rec.key(['redeclare', spec['canon'], spec['pres_a'], seq, spec['between'], spec['formulas'], spec['eval_betas'],
+                     spec['draws'], spec['ndraws']])
+        if r0['n_ind'] >= 2 and 3 <= r0['n_rows'] <= 14:
+            rec.sample({'declarations': [spec['cols'][x] for x in seq], 'between': spec['between'], 'table': r0['tab'],
+                        'formula_P': spec['formulas']['P'], 'final_column': final,
+                        'simulate_by_id': {repr(k): v for k, v in r0['sim'].get('P', {}).items()}})
+    else:
+        rec.c('redeclare_cases_without_evaluation')
+
+
 def run_case(case):
     from ..gen import c09_panel
     from ..oracle import c09_monitor as mon
 
     if case['mode'] == 'history':
         spec = c09_panel.make_history(case['seed'], case['i'], case.get('tier', 'quick'))
+    elif case['mode'] == 'redeclare':
+        spec = c09_panel.make_redeclare(case['seed'], case['i'], case.get('tier', 'quick'))
     else:
         spec = c09_panel.make(case['seed'], case['i'], case.get('tier', 'quick'), case['mode'])
     rec = Rec(case)
     cx = _Ctx(rec, spec)
     mon.reset(spec['idcol'])
     rec.c('mode_' + spec['mode'])
-    if spec['mode'] == 'history':
-        _run_history(cx, case)
+    if spec['mode'] in ('history', 'redeclare'):
+        (_run_history if spec['mode'] == 'history' else _run_redeclare)(cx, case)
         for k, v in mon.COUNT.items():
             rec.c(k, v)
         return rec.out()
@@ -715,6 +876,9 @@ def finalize(cov, tier):
         'history_simulate_judged', 'history_simulate_after_bootstrap_judged', 'history_loglike_judged',
         'history_engine_map_compared_simulateSeveralFormulas', 'history_engine_map_compared_calculateLikelihood',
         'history_op_estimate', 'history_op_estimate_bootstrap', 'history_op_quick_estimate',
+        'redeclarations_accepted', 'redeclare_cases_judged', 'redeclare_cases_judged_with_change_of_column',
+        'redeclare_cases_judged_montecarlo', 'redeclared_vs_fresh_compared', 'redeclare_between_evaluate',
+        'redeclare_between_biogeme', 'redeclare_between_remove', 'redeclare_between_add_column', 'redeclare_between_scale_column',
         'noncontiguous_table_refused', 'outside_refused_single-formula',
         'individuals_1', 'individuals_2_to_12', 'individuals_13_to_40', 'tables_with_singletons_only',
         'tables_mixing_singletons_and_longer_blocks', 'tables_over_16_rows',
